@@ -1,6 +1,86 @@
-(* C05 - An interrupted map resumes to the uninterrupted result (statements only). *)
-From Verif Require Import Base.Prelude Model.CrashFS.
+(* C05 - An interrupted map resumes to the uninterrupted result, redoing no stored work.
+   Statements only; every proof is `exact <lemma of Proofs/>`.  The model is Model/CrashFS.v (a run of
+   Model/MapResume.v compiled into file-system events; crash = prefix of the event list; resume = a run with
+   cleanup=False on the crashed file system).  NewCode is the repaired write protocol (temporary file + os.replace,
+   run_info.json last, DictArray.load keyed on the file), OldCode what the code did before. *)
+From Verif Require Import Base.Prelude Base.StrUtil Base.Index Base.NdArr
+  Model.MapSpec Model.MapRun Model.SymBody.
+From Verif Require Import Proofs.MapResumeFacts Proofs.CrashFSFacts.
+From Verif Require Import Model.MapResume Model.CrashFS Model.CrashFSRef.
 
-Theorem C05_placeholder : forall n : nat, n = n.
-Proof. intros n. exact eq_refl. Qed.
-Print Assumptions C05_placeholder.
+(* ---------------------------------------------------------------- no_partial_returned *)
+(* Whatever the pipeline, the user functions, the storage and the crash point k (of a first run or of a resumed
+   run): after the crash no file with a real (non-temporary) name is partially written.  Hence a resumed run,
+   which only reads real names, never sees – and never returns – a torn value. *)
+Theorem C05_crash_never_partial : forall body st p inputs user cleanup s0 k,
+  safe_fs s0 ->
+  safe_fs (crash (o_events (run_fs body NewCode st p inputs user cleanup s0)) k s0).
+Proof. exact crash_never_partial. Qed.
+Print Assumptions C05_crash_never_partial.
+
+Example ex_safe_empty : safe_fs empty_fs.
+Proof. exact safe_empty. Qed.
+
+(* ---------------------------------------------------------------- no_redo_of_stored *)
+(* A resumed run (any store rs read back from the folder, any user functions) calls a mapped function only for
+   elements that miss at least one output file, and a function without mapped inputs only when not all of its
+   output files could be loaded.  (Corollary of C06_part_computes_exactly.)  For file storage a cell is missing
+   exactly when its element file does not exist (cell_of_missing). *)
+Theorem C05_no_redo_of_stored : forall body (c : ctx) rs user ps,
+  sized c rs ->
+  (forall g f o, In g (x_p c) -> In f (x_p c) -> In o (fouts g) -> In o (fouts f) -> g = f) ->
+  all_shapes user (x_inputs c) (x_p c) = Ok (x_shapes c) ->
+  NoDup (flat_map fouts (concat (generations (x_p c)))) ->
+  NoDup (map fname (concat (generations (x_p c)))) ->
+  map_run_sel body (x_p c) (x_inputs c) user None rs = ROk ps ->
+  forall f, In f (concat (generations (x_p c))) ->
+    (forall i, In (fname f, Some i) (calls_of (p_tr ps)) ->
+       is_mapped f = true /\ exists sm, shape_of c f = Ok sm
+          /\ miss_any (stores_of rs f (prod (ext_of (snd sm) (fst sm)))) i = true)
+    /\ (In (fname f, None) (calls_of (p_tr ps)) ->
+          is_mapped f = false /\ forall outs, load_single rs f <> Ok (Some outs)).
+Proof. exact resume_calls_only_missing. Qed.
+Print Assumptions C05_no_redo_of_stored.
+
+Theorem C05_missing_iff_no_file : forall s0 p, cell_missing (cell_of s0 p) = negb (is_file s0 p).
+Proof. exact cell_of_missing. Qed.
+Print Assumptions C05_missing_iff_no_file.
+
+(* ---------------------------------------------------------------- resume_eq_uninterrupted *)
+(* Bounded form (finite domain decided by vm_compute, the bound is in the statement): for the three reference
+   pipelines of Model/CrashFSRef.v (mapped + whole-array consumer; two outputs with an internal axis + a reduction;
+   two functions in one generation + a consumer), both persisting storages, EVERY crash point k1 of the first run
+   and EVERY crash point k2 of the resumed run: the (second) resume succeeds with exactly the results of the
+   uninterrupted run. *)
+Theorem C05_resume_eq_uninterrupted_bounded : forall r st k1,
+  In r ref_family -> In st [FileSt; DictSt] -> k1 <= n_events1 NewCode st r ->
+  resume_ok NewCode st r k1 None = true
+  /\ forall k2, k2 <= n_events2 NewCode st r k1 -> resume_ok NewCode st r k1 (Some k2) = true.
+Proof. exact ref_family_resume. Qed.
+Print Assumptions C05_resume_eq_uninterrupted_bounded.
+
+(* Full statement (NOT proved in general; checked on every run by crash injection into the real code, see
+   harness/props/c05.py and spec_ok of Corr/Run_C05.v):
+     forall body st p inputs user (valid request, deterministic body), forall k1 (k2),
+       o_result (snd (crash_then_resume body NewCode st p inputs user k1 k2))
+       = o_result (run_fs body NewCode st p inputs user true empty_fs)
+   The general proof needs "a run on a sub-store of the final store completes to the final store" for whole
+   pipelines (the function-level version is C06_pieces_eq_whole_func). *)
+
+(* ---------------------------------------------------------------- resume_refuted_inplace *)
+(* What the code did before the repair (in-place writes, run_info.json first, DictArray.load keyed on the folder):
+   crash points after which the resumed run fails although the uninterrupted run succeeds. *)
+Theorem C05_resume_refuted_inplace :
+  exists st k, is_ok (o_result (ref_full OldCode st ref1)) = true
+               /\ is_ok (o_result (ref_run OldCode st ref1 false (crash (o_events (ref_full OldCode st ref1)) k empty_fs))) = false.
+Proof. exists FileSt, 17. vm_compute. split; reflexivity. Qed.
+Print Assumptions C05_resume_refuted_inplace.
+
+Theorem C05_old_code_failure_classes :
+  o_result (ref_run OldCode FileSt ref1 false (crash (o_events (ref_full OldCode FileSt ref1)) 3 empty_fs)) = Err ValueError
+  /\ o_result (ref_run OldCode FileSt ref1 false (crash (o_events (ref_full OldCode FileSt ref1)) 6 empty_fs)) = Err ValueError
+  /\ o_result (ref_run OldCode FileSt ref1 false (crash (o_events (ref_full OldCode FileSt ref1)) 17 empty_fs)) = Err OtherError
+  /\ o_result (ref_run OldCode DictSt ref1 false (crash (o_events (ref_full OldCode DictSt ref1)) 21 empty_fs)) = Err FileNotFoundError
+  /\ is_ok (o_result (ref_full OldCode FileSt ref1)) = true /\ is_ok (o_result (ref_full OldCode DictSt ref1)) = true.
+Proof. exact old_code_refuted. Qed.
+Print Assumptions C05_old_code_failure_classes.
